@@ -65,7 +65,10 @@ type mKeyDesc struct {
 	Use   string
 	Certs []string
 }
-type mReqAttr struct{ Friendly, Name, Format string }
+type mReqAttr struct {
+	Friendly, Name, Format string
+	Values                 []string // AttributeValue children of the metadata's RequestedAttribute
+}
 type mAttrSvc struct {
 	Default   *bool
 	Requested []mReqAttr
@@ -139,7 +142,7 @@ func (k mKeyDesc) term() string {
 	return fmt.Sprintf("{| kd_use := %s; kd_certs := %s |}", emit.Str(k.Use), emit.StrList(k.Certs))
 }
 func (r mReqAttr) term() string {
-	return fmt.Sprintf("{| ra_friendly := %s; ra_name := %s; ra_format := %s |}", emit.Str(r.Friendly), emit.Str(r.Name), emit.Str(r.Format))
+	return fmt.Sprintf("{| ra_friendly := %s; ra_name := %s; ra_format := %s; ra_values := %s |}", emit.Str(r.Friendly), emit.Str(r.Name), emit.Str(r.Format), emit.StrList(r.Values))
 }
 func (a mAttrSvc) term() string {
 	items := []string{}
@@ -216,10 +219,15 @@ func (m mMeta) toSAML() *saml.EntityDescriptor {
 			sd.KeyDescriptors = append(sd.KeyDescriptors, kd)
 		}
 		for si, s := range d.Svcs {
-			as := saml.AttributeConsumingService{Index: si, IsDefault: s.Default}
+			as := saml.AttributeConsumingService{Index: si, IsDefault: s.Default,
+				ServiceNames:        []saml.LocalizedName{{Lang: "en", Value: fmt.Sprintf("META-ONLY-service-name-%d", si)}},
+				ServiceDescriptions: []saml.LocalizedName{{Lang: "en", Value: "META-ONLY-service-description"}}}
 			for _, r := range s.Requested {
 				ra := saml.RequestedAttribute{}
 				ra.FriendlyName, ra.Name, ra.NameFormat = r.Friendly, r.Name, r.Format
+				for _, v := range r.Values {
+					ra.Values = append(ra.Values, saml.AttributeValue{Type: "xs:string", Value: v})
+				}
 				as.RequestedAttributes = append(as.RequestedAttributes, ra)
 			}
 			sd.AttributeConsumingServices = append(sd.AttributeConsumingServices, as)
